@@ -3,10 +3,63 @@ import itertools, json
 import vlib
 from checks.c09 import vlib_corpus
 from checks.c04 import LAYOUTS, KEYS7, MORE_MEDIA
-from specgen import resp_spec, op_spec
+from specgen import resp_spec, op_spec, base_spec, schema_of
+
+
+def req_param_schema(p):
+    t = p.get("type", "string")
+    if t == "enum":
+        return {"type": "string", "enum": list(p.get("enum") or ["a", "b"])}
+    if t == "enumarray":
+        return {"type": "array", "items": {"type": "string", "enum": list(p.get("enum") or ["a", "b"])}}
+    if t == "array":
+        return {"type": "array", "items": {"type": "string"}}
+    if t == "intarray":
+        return {"type": "array", "items": {"type": "integer"}}
+    return {"type": t}
+
+
+def req_spec(ops):
+    """request-side cases: operations [{opid, method, path, params:[{name,in,level,type,enum?,required?,style?,explode?}], body}]
+    -> one OpenAPI document (path-level parameters go to the path item)."""
+    s = base_spec()
+    for d in ops:
+        op = {"operationId": d.get("opid", "op"), "responses": {"200": {"description": "ok"}}}
+        item = s["paths"].setdefault(d["path"], {})
+        for p in d.get("params", []):
+            o = {"name": p["name"], "in": p["in"], "schema": req_param_schema(p)}
+            if p.get("required") or p["in"] == "path":
+                o["required"] = True
+            for k in ("style", "explode"):
+                if p.get(k) is not None:
+                    o[k] = p[k]
+            if p.get("level") == "path":
+                if o not in item.setdefault("parameters", []):
+                    item["parameters"].append(o)
+            else:
+                op.setdefault("parameters", []).append(o)
+        b = d.get("body")
+        if b:
+            content = {}
+            for ct, kind in b["content"]:
+                m = {}
+                sch = schema_of(kind)
+                if sch is not None:
+                    m["schema"] = sch
+                content[ct] = m
+            op["requestBody"] = {"content": content}
+            if b.get("required"):
+                op["requestBody"]["required"] = True
+        item[d["method"]] = op
+    return s
 
 
 def prepare(case):
+    if case["op"] == "interop.req":
+        d = case["in"]
+        return {"op": case["op"], "in": {"ops": d["ops"], "cfg": d.get("cfg", {}), "spec": req_spec(d["ops"])}}
+    if case["op"] != "interop.resp":
+        return case
     d = case["in"]
     r = d["responses"]
     spec = resp_spec(r)
@@ -43,6 +96,101 @@ def cases(ctx):
     return out
 
 
+# ---- request side ------------------------------------------------------------------------------
+# one template per "shape class"; within one case the templates are chosen with pairwise different shapes
+REQ_TEMPLATES = [
+    "/", "/items", "/items/", "/a/{id}", "/a/{id}/", "/pets/{petId}/toys/{toy}", "/b/x-{id}", "/v1/users/{user_id}/posts",
+    "/c/{type}", "/d/{id}.json", "/e/{a}:{b}", "/f/x{p}y", "/caf\u00e9/{id}", "/g h/{id}", "/i/y-{match}", "/j/{Id}/k/{ID2}", "/l.m/n_o~p",
+    "/q/a%b", "/r/{self}", "/s/t-u/{X-Y}",
+]
+REQ_ENUMS = [["DESC", "asc"], ["Premium", "basic"], ["A", "a", "b"], ["low", "mid", "high"], ["UP", "Up", "up"], ["one"], ["x-1", "X_2"], ["Desc", "DESC", "other"]]
+REQ_QNAMES = ["q", "limit", "sort-Order", "page size", "type", "Filter", "a.b", "tags", "ids"]
+REQ_HNAMES = ["X-Trace", "X-Request-Id", "x-sort", "X-API-Version", "Accept-Language", "X_Only", "If-Match"]
+REQ_BODIES = [["application/json", "ref:Pet"], ["application/x-www-form-urlencoded", "ref:Pet"], ["text/plain", "string"], ["application/octet-stream", "string"],
+              ["application/vnd.x+json", "ref:Pet"]]
+
+
+def req_params(r, names, loc, lo, hi):
+    out = []
+    for n in r.sample(names, min(len(names), r.randint(lo, hi))):
+        t = r.choice(["string", "string", "integer", "boolean", "enum", "enum", "array", "intarray", "enumarray"])
+        p = {"name": n, "in": loc, "level": r.choice(["op", "op", "path"]), "type": t, "required": r.random() < 0.4}
+        if t in ("enum", "enumarray"):
+            p["enum"] = r.choice(REQ_ENUMS)
+        if t in ("array", "intarray", "enumarray") and loc == "query":
+            p["style"] = r.choice([None, "form", "spaceDelimited", "pipeDelimited"])
+            p["explode"] = r.choice([None, True, False, False])
+        out.append(p)
+    return out
+
+
+def req_op(r, i, path):
+    import re
+    params = []
+    for n in dict.fromkeys(re.findall(r"\{([^}]*)\}", path)):
+        if r.random() < 0.92:
+            t = r.choice(["string", "string", "integer", "enum", "boolean"])
+            p = {"name": n, "in": "path", "level": r.choice(["op", "path"]), "type": t}
+            if t == "enum":
+                p["enum"] = r.choice(REQ_ENUMS)
+            params.append(p)
+    params += req_params(r, REQ_QNAMES, "query", 0, 3) + req_params(r, REQ_HNAMES, "header", 0, 3)
+    m = r.choice(["get", "get", "post", "put", "delete", "patch", "head"])
+    body = None
+    if m in ("post", "put", "patch") and r.random() < 0.7:
+        body = {"content": [r.choice(REQ_BODIES)], "required": r.random() < 0.6}
+        if r.random() < 0.2:
+            body["content"].append(r.choice(REQ_BODIES))
+            if body["content"][0][0] == body["content"][1][0]:
+                body["content"].pop()
+    return {"opid": r.choice(["get", "list", "create", "op"]) + r.choice(["Pet", "Item", "Thing"]) + str(i), "method": m, "path": path, "params": params, "body": body}
+
+
+def req_shape(t):
+    import re
+    return re.sub(r"\{[^}]*\}", "{}", t).rstrip("/") or "/"
+
+
+def req_cases(ctx):
+    r = ctx.rng
+    out = []
+    # every template alone, plain and with one parameter of each location, under each enum mode
+    for t in REQ_TEMPLATES:
+        for em in ("merge", "preserve", "relaxed"):
+            import re
+            ps = [{"name": n, "in": "path", "level": "op", "type": "string"} for n in dict.fromkeys(re.findall(r"\{([^}]*)\}", t))]
+            out.append({"op": "interop.req", "in": {"ops": [{"opid": "op", "method": "get", "path": t, "params": ps, "body": None}], "cfg": {"enum_mode": em}}})
+            if ctx.quick:
+                break
+    for vals in REQ_ENUMS:
+        for em in ("merge", "preserve", "relaxed"):
+            for loc in ("header", "query", "path"):
+                ps = [{"name": "e", "in": loc, "level": "op", "type": "enum", "enum": vals, "required": True}]
+                out.append({"op": "interop.req", "in": {"ops": [{"opid": "op", "method": "get", "path": "/e/{e}" if loc == "path" else "/e", "params": ps, "body": None}], "cfg": {"enum_mode": em}}})
+    for ct in REQ_BODIES:
+        for req in (True, False):
+            out.append({"op": "interop.req", "in": {"ops": [{"opid": "op", "method": "post", "path": "/b", "params": [], "body": {"content": [ct], "required": req}}], "cfg": {}}})
+    for _ in range(150 if ctx.quick else 2500):
+        n = r.choice([1, 1, 1, 2, 3])
+        ts, seen = [], set()
+        for t in r.sample(REQ_TEMPLATES, len(REQ_TEMPLATES)):
+            if req_shape(t) not in seen and len(ts) < n:
+                # special templates (known-finding shapes) are drawn less often
+                if REQ_TEMPLATES.index(t) >= 8 and r.random() < 0.6:
+                    continue
+                seen.add(req_shape(t)); ts.append(t)
+        cfg = {"enum_mode": r.choice(["merge", "preserve", "relaxed"]), "builders": r.random() < 0.3, "no_helpers": r.random() < 0.3}
+        out.append({"op": "interop.req", "in": {"ops": [req_op(r, i, t) for i, t in enumerate(ts)], "cfg": cfg}})
+    # K: the Lean route matcher against the real matchit
+    segs_p = ["a", "{x}", "x-{y}", "{z}.json", "{u}:{v}", "", "b c", "k{w}"]
+    segs_v = ["a", "5", "x-5", "x-", "q.json", "1:2", "", "b c", "b%20c", "k9", "k"]
+    for _ in range(300 if ctx.quick else 3000):
+        pat = "/" + "/".join(r.choice(segs_p) for _ in range(r.randint(1, 3)))
+        path = "/" + "/".join(r.choice(segs_v) for _ in range(r.randint(1, 3)))
+        out.append({"op": "interop.req.route", "in": {"patterns": [pat], "path": path}})
+    return out
+
+
 def run(ctx):
     ctx.translate(["status", "naming"])
     proofs_ok, driver_ok = ctx.build_lean(["Oas3Model.Props.C06"])
@@ -52,7 +200,7 @@ def run(ctx):
             ctx.leanchecker("Oas3Model.Props.C06")
     ctx.prepare = prepare
     if driver_ok and ctx.build_harness(["k_gen"]):
-        allc = vlib_corpus(ctx) + cases(ctx)
+        allc = vlib_corpus(ctx) + cases(ctx) + req_cases(ctx)
         B = 300
         for i in range(0, len(allc), B):
             ctx.classify(ctx.evaluate(allc[i:i + B]), tie="E")
@@ -60,6 +208,7 @@ def run(ctx):
                 break
     return ctx.finish(
         checker_cmd="lake build Oas3Model.Props.C06 && #print axioms on every theorem" + ("" if ctx.quick else " && leanchecker"),
-        trusted_base=vlib.TRUSTED_BASE + ["composition of the C03/C04/C05 models; TCP/HTTP framing, serde encoding of payloads and axum extractors are not modelled", "an absent Content-Type is read by the client as application/json (as in the emitted code)"],
-        rule="one responses object (every non-empty subset of {200,201,404,2XX,4XX,5XX,default} x 5 media layouts: 635 thorough / 200 sampled quick, + random key sets, odd media, enum-mode/builders/helpers configurations, path/query/body shapes) through TWO separate generator runs (client-mod, server-mod); each server variant's (status, encoding) is fed to the client's emitted chain; wire shapes of all types compared between the two runs; non-trivial = >=1 key; distinct by input hash",
+        trusted_base=vlib.TRUSTED_BASE + ["composition of the C03/C04/C05 models; TCP/HTTP framing, serde encoding of payloads and axum extractors are not modelled", "an absent Content-Type is read by the client as application/json (as in the emitted code)",
+                                             "request side: syn extraction of both emitted halves (harness/src/k_req.rs; unreadable constructs fail the judge); axum/matchit route semantics as stated in Model/ReqInterop.lean, compared with the real matchit crate on every run, not verified; std Display/FromStr of integers/booleans, serde_urlencoded and axum extractor internals beyond names/kinds, HTTP framing are not modelled"],
+        rule="one responses object (every non-empty subset of {200,201,404,2XX,4XX,5XX,default} x 5 media layouts: 635 thorough / 200 sampled quick, + random key sets, odd media, enum-mode/builders/helpers configurations, path/query/body shapes) through TWO separate generator runs (client-mod, server-mod); each server variant's (status, encoding) is fed to the client's emitted chain; wire shapes of all types compared between the two runs; non-trivial = >=1 key; distinct by input hash. REQUEST side (interop.req): 20 path templates (plain, parameters, prefixed parameter, trailing slash, root, keyword names, suffix/multi-parameter segments, literals needing encoding) x 0-3 parameters per location (path/query/header) at operation and path-item level x string/integer/boolean/enum (8 value sets incl. upper/mixed/lower case and case-only differences)/arrays with styles x bodies (json/form/text/octet-stream, required or not) x {enum mode, builders, helpers}, 1-3 operations per case, client-mod and server-mod generated separately and the extracted facts judged by reqInteropOk; interop.req.route: random (pattern, path) pairs through the real matchit crate vs the Lean routeMatch",
         assumptions=["variant names identify variants across the two runs (same pipeline, same names: checked by the shape comparison)"])
